@@ -537,6 +537,8 @@ def to_str(it, v, node=None):
             return ABag(len(str(v.lo)), len(str(v.hi)), CharSet(ASCII_DIGITS))
         return ABag(1, max(len(str(v.lo)), len(str(v.hi))), CharSet(ASCII_DIGITS + "-"))
     if isinstance(v, Sym):
+        if _symstr(v) or (v.kind == "method" and v.args[1] in ("upper", "lower", "strip", "lstrip", "rstrip", "replace", "zfill")):
+            return v
         return Sym("str", v)
     if isinstance(v, ExcVal):
         return str(v.args[0]) if v.args and isinstance(v.args[0], str) else Unknown("str(exc)")
@@ -693,6 +695,14 @@ def subscript(it, base, idx, node):
     idx = strval(idx) if isinstance(idx, Obj) else idx
     if isinstance(base, Unknown):
         return Unknown("subscript")
+    if isinstance(base, DefaultDict) and not is_abstract(idx):
+        try:
+            if idx not in base:
+                it.event("mutate", obj=base, op="defaultdict-insert", node=node)
+                base[idx] = it.call(base.factory, [], {}, node)
+            return base[idx]
+        except TypeError:
+            it.may_raise("TypeError", node, "unhashable key", certain=True)
     if isinstance(base, dict):
         if isinstance(idx, (VSet, CharSet)):
             good, bad = [], []
@@ -1074,6 +1084,21 @@ def value_attr(it, base, name, node):
     if isinstance(b, int):
         raise _CE(f"int attribute {name}")
     raise _CE(f"attribute {name} of {b!r}")
+
+
+class FileVal:
+    """An open (virtual) file."""
+
+    def __init__(self, path):
+        self.path = path
+
+
+class DefaultDict(dict):
+    """collections.defaultdict(list) model."""
+
+    def __init__(self, factory):
+        super().__init__()
+        self.factory = factory
 
 
 class LazyInstance:
